@@ -66,6 +66,7 @@ type verdict struct {
 	Elided           int
 	DistinctBindings int
 	BoundThenFailed  int
+	NestedChoice     int
 }
 
 func (v *verdict) contradicts(prop string) bool {
@@ -492,6 +493,7 @@ func evalModel(cs *modelCase) *verdict {
 	v.Optional = res.Optional
 	v.Inadmissible = res.Inadmissible
 	v.BoundThenFailed = res.BoundThenFailed
+	v.NestedChoice = res.NestedChoice
 	v.Holes = len(cs.Spec.Holes)
 	for _, n := range p.HoleOccurrences(p.Minus) {
 		if n > 1 {
@@ -690,6 +692,10 @@ func evalModel(cs *modelCase) *verdict {
 		}
 		s := res.Sites[d.Site-1]
 		v.Msg = fmt.Sprintf("instance not rewritten (slot %s, depth %d): %s\n%s", s.Slot, s.Depth, ref.Brief(s.Node), v.Msg)
+		if s.NestedChoice {
+			v.Sub = "needs-another-choice-in-a-nested-list"
+			v.Msg = "(the code is an instance only if a list nested in the pattern is matched in another way than the first that fits: a repeated metavariable further on rules the first one out)\n" + v.Msg
+		}
 	case d.Site > 0:
 		v.Class = "site-wrong"
 		v.Props = []string{"C03"}
@@ -827,6 +833,8 @@ type modelCheck struct {
 	Prop       string
 	Opts       modelOpts
 	NonTrivial func(cs *modelCase, v *verdict) bool
+	// NestedChoice > 0: one case in that many is a synthetic nested-choice case.
+	NestedChoice int
 }
 
 func (mc *modelCheck) record(c *evid.Collector, cs *modelCase, v *verdict) {
@@ -835,6 +843,9 @@ func (mc *modelCheck) record(c *evid.Collector, cs *modelCase, v *verdict) {
 		classes = append(classes, "class:"+v.Class)
 	}
 	classes = append(classes, fmt.Sprintf("holes:%d", v.Holes), fmt.Sprintf("minus-dots:%d", min(v.MinusDots, 3)), fmt.Sprintf("sites:%d", min(v.Sites, 4)))
+	if v.NestedChoice > 0 {
+		classes = append(classes, "instance-only-by-another-choice-in-a-nested-list")
+	}
 	for _, s := range v.SiteSlots {
 		classes = append(classes, "site-slot:"+s)
 	}
@@ -860,9 +871,58 @@ func (mc *modelCheck) record(c *evid.Collector, cs *modelCase, v *verdict) {
 	}
 }
 
+// nestedChoiceCase: a metavariable occurs in a list with elisions that is
+// nested in the pattern, and again after that list. Whether code is an
+// instance can then depend on which element of the nested list the
+// metavariable is taken to stand for.
+func nestedChoiceCase(rt *rapid.T) *modelCase {
+	atoms := []string{"1", "2", "a", "b", "k()", "a.b"}
+	pick := func(label string) string { return rapid.SampledFrom(atoms).Draw(rt, label) }
+	type shape struct{ minus, plus, patchMinus, patchPlus, site string }
+	shapes := []shape{
+		{"hq(fq(DOTS__1, hv1, DOTS__2), hv1)", "hq2(hv1)", "hq(fq(..., hv1, ...), hv1)", "hq2(hv1)", "hq(fq(%s), %s)"},
+		{"hq(hv1, fq(DOTS__1, hv1, DOTS__2))", "hq2(hv1)", "hq(hv1, fq(..., hv1, ...))", "hq2(hv1)", "hq(%[2]s, fq(%[1]s))"},
+		{"hq(fq(DOTS__1, hv1), gq(hv1, DOTS__2))", "hq2(hv1, DOTS__2)", "hq(fq(..., hv1), gq(hv1, ...))", "hq2(hv1, ...)", "hq(fq(%s), gq(%s, 9))"},
+		{"hq([]int{DOTS__1, hv1, DOTS__2}[0], hv1)", "hq2(hv1)", "hq([]int{..., hv1, ...}[0], hv1)", "hq2(hv1)", "hq([]int{%s}[0], %s)"},
+	}
+	sh := shapes[rapid.IntRange(0, len(shapes)-1).Draw(rt, "nestedShape")]
+	var body strings.Builder
+	n := rapid.IntRange(1, 4).Draw(rt, "nestedSites")
+	for i := 0; i < n; i++ {
+		k := rapid.IntRange(1, 4).Draw(rt, fmt.Sprintf("nestedLen%d", i))
+		var list []string
+		for j := 0; j < k; j++ {
+			list = append(list, pick(fmt.Sprintf("nestedElem%d_%d", i, j)))
+		}
+		outer := pick(fmt.Sprintf("nestedOuter%d", i))
+		if rapid.Bool().Draw(rt, fmt.Sprintf("nestedHit%d", i)) {
+			outer = list[rapid.IntRange(0, len(list)-1).Draw(rt, fmt.Sprintf("nestedWhich%d", i))]
+		}
+		call := fmt.Sprintf(sh.site, strings.Join(list, ", "), outer)
+		switch rapid.IntRange(0, 2).Draw(rt, fmt.Sprintf("nestedCtx%d", i)) {
+		case 0:
+			body.WriteString("\t" + call + "\n")
+		case 1:
+			body.WriteString("\t_ = " + call + "\n")
+		default:
+			body.WriteString("\tif ok(" + call + ") {\n\t}\n")
+		}
+	}
+	return &modelCase{
+		Spec:   ref.Spec{Holes: map[string]ref.HoleKind{"hv1": ref.ExprHole}, Minus: sh.minus, Plus: sh.plus},
+		Patch:  "@@\nvar hv1 expression\n@@\n-" + sh.patchMinus + "\n+" + sh.patchPlus + "\n",
+		Host:   "package nested\n\nfunc f(a T, b int) {\n" + body.String() + "}\n",
+		Origin: "synthetic:nested-choice",
+	}
+}
+
 func (mc *modelCheck) run(t *testing.T) {
 	c := coll(mc.Prop)
 	checkN(t, func(rt *rapid.T) {
+		if mc.NestedChoice > 0 && rapid.IntRange(0, mc.NestedChoice-1).Draw(rt, "nestedChoice") == 0 {
+			mc.judge(rt, c, nestedChoiceCase(rt))
+			return
+		}
 		cs, why := genModelCase(rt, mc.Opts)
 		if cs == nil {
 			c.Note("generator:" + why)
